@@ -221,6 +221,11 @@ static uint32_t nc_sdo_write(uint16_t idx, uint8_t sub, uint32_t val, int len)
     }
     return 0xFFFFFFFFu;
 }
+/* the application reads (and thereby clears) the node error after every step - unless --opt nopoll=1: the error register of the node is
+ * sticky, and an application that never looks at it is legal; nothing a service does may depend on an old, unrelated error */
+static int nc_nopoll = -1;
+static void nc_poll(void) { if (nc_nopoll < 0) nc_nopoll = mc_opt("nopoll", 0); if (!nc_nopoll) (void)CONodeGetErr(&Node); }
+
 /* segmented SDO download of n <= 7 bytes (one segment), size announced or not; returns 0 if confirmed, else the abort code (0xFFFFFFFF: no or odd answer) */
 static uint32_t nc_sdo_write_seg(uint16_t idx, uint8_t sub, const uint8_t *data, int n, int announce)
 {
